@@ -139,6 +139,7 @@ fn nontrivial(prop: &str, w: &World) -> bool {
 }
 
 pub fn run_program(prog: &Program, mon: &MonSet) -> RunResult {
+    crate::util::note_candidate("sim", mon.prop, &serde_json::to_value(prog).unwrap());
     let mut world = World::new(&prog.cfg, mon.clone());
     world.ascii = prog.ascii;
     let res = catch(|| {
@@ -251,6 +252,9 @@ pub fn cmd_sim(args: &Args) -> i32 {
     let out = args.str("out", "");
     let replay_dir = args.str("replay-dir", "/verif/replays");
     let progress = args.str("progress", "");
+    if !progress.is_empty() {
+        crate::util::set_candidate_path(&format!("{}.cand", progress));
+    }
     let mut total = Counters::default();
     let mut hashes: Vec<u64> = vec![];
     let mut violations = vec![];
@@ -338,6 +342,12 @@ pub fn cmd_replay(args: &Args) -> i32 {
         }
     };
     let doc: serde_json::Value = serde_json::from_str(&text).unwrap();
+    if doc["workload"].as_str() == Some("undo") {
+        return crate::undo::replay_undo(&doc, args.has("full"));
+    }
+    if doc["workload"].as_str() == Some("seq") {
+        return crate::seqmodel::replay_seq(&doc, args.has("full"));
+    }
     let prop = doc["prop"].as_str().unwrap_or("C01").to_string();
     let tier = doc["tier"].as_str().unwrap_or("quick").to_string();
     let idx = doc["idx"].as_u64().unwrap_or(0);
